@@ -66,10 +66,10 @@ def sh(cmd, cwd=None, timeout=3600, env=None, check=False, quiet=True):
 # ----------------------------------------------------------------------------------------------
 # builds
 
-def build_harness(features_sm=False):
+def build_harness(features_sm=False, release=False):
     """Build vmon/vrt/vtool from /verif/harness against /repo's working tree."""
     tdir = os.path.join(TARGET, "harness-sm" if features_sm else "harness")
-    cmd = ["cargo", "build", "--offline", "-p", "vtool"]
+    cmd = ["cargo", "build", "--offline", "-p", "vtool"] + (["--release"] if release else [])
     if features_sm:
         cmd += ["--features", "state_machine_codegen"]
     e = env_base()
@@ -78,12 +78,15 @@ def build_harness(features_sm=False):
     if rc != 0:
         # the harness links logos-codegen as a library: a tree that does not compile is inconclusive
         raise Inconclusive("harness build failed (does /repo compile?):\n" + out[-3000:])
-    return os.path.join(tdir, "debug", "vtool")
+    return os.path.join(tdir, "release" if release else "debug", "vtool")
 
 
-def vtool(args, timeout=3600, sm=False):
-    exe = build_harness(sm)
-    rc, out = sh([exe] + args, cwd=VERIF, timeout=timeout)
+def vtool(args, timeout=3600, sm=False, release=False, env_extra=None):
+    exe = build_harness(sm, release)
+    e = env_base()
+    if env_extra:
+        e.update(env_extra)
+    rc, out = sh([exe] + args, cwd=VERIF, timeout=timeout, env=e)
     if rc != 0:
         raise Inconclusive(f"vtool {' '.join(args)[:120]} failed rc={rc}:\n{out[-2000:]}")
     return out
@@ -661,6 +664,13 @@ def check_C04(ctx):
     stage_l(ctx)
     _, _, _, aggs = stage_stream(ctx, "mixed", list(CONFIGS), {"C04"})
     fold_stream_cov(ctx, aggs, "runs_with_multibyte")
+    # bump is the other way a span end is set: on str sources an end inside a code point must never be stored
+    # (the bump matrix checks the span invariant before slicing); C04 adopts those findings for str sources
+    ctx.rules += ["apidrv bump (str sources): after every bump - returned or caught - the span lies on char boundaries; checked before slice()/remainder() are called."]
+    str_span = lambda v: v.get("property") == "C15" and v.get("rule", "").startswith("span-invariant-broken") and v.get("detail", "").startswith('"')
+    for cfg in (["tc", "tc_safe"] if ctx.tier == "quick" else list(CONFIGS)):
+        run_apidrv(ctx, build_apidrv(cfg), ["bump"], cfg, adopt=str_span)
+    run_apidrv(ctx, build_apidrv("tc", release=True), ["bump"], "tc-release", adopt=str_span)
 
 
 def check_C07(ctx):
@@ -881,15 +891,49 @@ def check_C20(ctx):
 # ----------------------------------------------------------------------------------------------
 # C16 - C19
 
-def build_cli(sm=False):
+def build_cli(sm=False, release=False):
     tdir = os.path.join(TARGET, "repo-cli-sm" if sm else "repo-cli")
-    cmd = ["cargo", "build", "--offline", "-p", "logos-cli"] + (["--features", "state_machine_codegen"] if sm else [])
+    cmd = ["cargo", "build", "--offline", "-p", "logos-cli"] + (["--release"] if release else []) + (["--features", "state_machine_codegen"] if sm else [])
     e = env_base()
     e["CARGO_TARGET_DIR"] = tdir
     rc, out = sh(cmd, cwd=REPO, timeout=1800, env=e)
     if rc != 0:
         raise Inconclusive("logos-cli build failed:\n" + out[-2000:])
-    return os.path.join(tdir, "debug", "logos-cli")
+    return os.path.join(tdir, "release" if release else "debug", "logos-cli")
+
+
+def hostile_envs():
+    """Process environments the generated code must not depend on. (1) what cargo exports to build scripts and what a
+    release build looks like from the inside, with one CARGO_FEATURE_* per feature declared in the repository's manifests and
+    every environment variable name the repository's sources mention; (2) locale, time zone, terminal, home."""
+    import re
+    feats, names = set(), set()
+    for root, _, files in os.walk(REPO):
+        if "/target" in root or "/.git" in root:
+            continue
+        for f in files:
+            fp = os.path.join(root, f)
+            try:
+                if f == "Cargo.toml":
+                    txt = open(fp).read()
+                    m = re.search(r"\[features\](.*?)(\n\[|\Z)", txt, re.S)
+                    if m:
+                        feats.update(re.findall(r"^([A-Za-z0-9_-]+)\s*=", m.group(1), re.M))
+                elif f.endswith(".rs"):
+                    names.update(re.findall(r"(?:var_os|var|env!|option_env!)\s*\(\s*\"([A-Za-z_][A-Za-z0-9_]*)\"", open(fp, errors="replace").read()))
+            except OSError:
+                pass
+    a = {"PROFILE": "release", "DEBUG": "false", "OPT_LEVEL": "3", "TARGET": "x86_64-unknown-linux-gnu", "HOST": "x86_64-unknown-linux-gnu", "NUM_JOBS": "1",
+         "OUT_DIR": os.path.join(WORK, "fake-out-dir"), "CARGO_PKG_NAME": "logos-codegen", "CARGO_PKG_VERSION": "9.9.9", "CARGO_CFG_TARGET_OS": "linux",
+         "CARGO_CFG_DEBUG_ASSERTIONS": "", "CARGO_ENCODED_RUSTFLAGS": "-Copt-level=3", "RUSTC_BOOTSTRAP": "1", "CARGO_PRIMARY_PACKAGE": "1"}
+    for ft in feats:
+        a["CARGO_FEATURE_" + ft.upper().replace("-", "_")] = "1"
+    for n in names:
+        if n not in ("PATH", "HOME", "VERIF_ROOT", "VERIF_REPO", "CARGO_MANIFEST_DIR"):
+            a.setdefault(n, "1")
+    b = {"LANG": "tr_TR.UTF-8", "LC_ALL": "tr_TR.UTF-8", "LC_COLLATE": "C", "TZ": "Pacific/Kiritimati", "TERM": "dumb", "NO_COLOR": "1", "CLICOLOR_FORCE": "1",
+         "HOME": "/nonexistent", "USER": "nobody", "COLUMNS": "20", "RUST_LOG": "trace", "RUST_BACKTRACE": "full", "SOURCE_DATE_EPOCH": "0", "TMPDIR": WORK}
+    return [a, b], {"features_seen": sorted(feats), "env_names_in_sources": sorted(names)}
 
 
 def check_C16(ctx):
@@ -897,7 +941,9 @@ def check_C16(ctx):
                   "ignore(case), subpattern bodies or token/regex) and the fixed specimens of the must-reject categories (diagnostic texts) are each generated in T threads per process (fresh hash-map keys per thread; "
                   "every thread of every process walks the definitions in another order: forward, reverse, rotated, shuffled, so each definition is generated after many different histories) and in P separate processes; "
                   "FNV hashes of the emitted code/diagnostic string and of the captured graph must be identical across all P*T runs, for both code generators. "
-                  "logos-cli (real binary, both generators): the same input generated twice into different files gives identical bytes and --check accepts the other run's output. "
+                  "Besides the P plain processes, two processes run in hostile environments (everything cargo exports to build scripts incl. one CARGO_FEATURE_* per declared feature and every "
+                  "environment variable name the sources mention; Turkish locale, far time zone, no home) and one process is the generator built in the release profile: same hashes are due. "
+                  "logos-cli (real binary, both generators): the same input generated twice into different files (second run in a hostile environment, every third with the release-built CLI) gives identical bytes and --check accepts the other run's output. "
                   "Non-trivial: definitions with at least 8 graph states."]
     n = 160 if ctx.tier == "quick" else 1200
     procs = 6 if ctx.tier == "quick" else 16
@@ -906,10 +952,16 @@ def check_C16(ctx):
     for sm in (False, True):
         build_harness(sm)
         outs = []
+        envs, env_info = hostile_envs()
+        build_harness(sm, release=True)
         def one(p):
-            return json.loads(vtool(["det", "--seed", str(ctx.seed), "--count", str(n), "--threads", str(threads), "--proc", str(p)], sm=sm))
+            # processes procs..procs+1 run in hostile environments, the last one is the generator built in the release
+            # profile (no debug assertions, optimised): same definitions, same feature set, so the same bytes are due
+            extra = envs[p - procs] if procs <= p < procs + len(envs) else None
+            return json.loads(vtool(["det", "--seed", str(ctx.seed), "--count", str(n), "--threads", str(threads), "--proc", str(p)], sm=sm, release=(p == procs + len(envs)), env_extra=extra))
         with ThreadPoolExecutor(max_workers=procs) as ex:
-            outs = list(ex.map(one, range(procs)))
+            outs = list(ex.map(one, range(procs + len(envs) + 1)))
+        ctx.coverage["environments"] = {"plain": procs, "hostile": len(envs), "release_built_generator": 1, **env_info}
         for o in outs:
             for v in o["violations"]:
                 ctx.add_violation(v)
@@ -917,11 +969,12 @@ def check_C16(ctx):
         for pi, o in enumerate(outs[1:], 1):
             if o["hashes"] != ref:
                 k = next(i for i in range(len(ref)) if o["hashes"][i] != ref[i])
+                kind = "plain environment" if pi < procs else ("release-built generator" if pi == procs + len(envs) else f"hostile environment #{pi - procs}: " + " ".join(f"{a}={b}" for a, b in sorted(envs[pi - procs].items()))[:600])
                 ctx.add_violation({"property": "C16", "level": "L", "rule": "processes-disagree", "codegen": "state_machine" if sm else "tailcall",
-                                   "detail": f"definition #{k}: process 0 hashes {ref[k]}, process {pi} hashes {o['hashes'][k]} (seed {ctx.seed})",
+                                   "detail": f"definition #{k}: process 0 hashes {ref[k]}, process {pi} ({kind}) hashes {o['hashes'][k]} (seed {ctx.seed})",
                                    "definition_index": k})
-        contexts += procs * threads
-        ctx.coverage["evaluations"] += outs[0]["definitions"] * procs * threads
+        contexts += len(outs) * threads
+        ctx.coverage["evaluations"] += outs[0]["definitions"] * len(outs) * threads
         if not sm:
             ctx.coverage["distinct_nontrivial"] += outs[0]["definitions_with_8_or_more_states"]
             ctx.coverage["samples"].append({"definition": outs[0]["sample"], "hashes": ref[0]})
@@ -933,19 +986,24 @@ def check_C16(ctx):
     vtool(["cli-gen", "--seed", str(ctx.seed), "--count", "12" if ctx.tier == "quick" else "60", "--dir", cdir])
     for sm in (False, True):
         exe = build_cli(sm)
+        exe_rel = build_cli(sm, release=True)
+        cli_envs = hostile_envs()[0]
         k = 0
         while os.path.exists(os.path.join(cdir, f"in_{k}.rs")):
             inp = os.path.join(cdir, f"in_{k}.rs")
             a, b = os.path.join(cdir, f"a_{k}_{int(sm)}.rs"), os.path.join(cdir, f"b_{k}_{int(sm)}.rs")
             r1, o1 = sh([exe, inp, "--output", a], timeout=120)
-            r2, o2 = sh([exe, inp, "--output", b], timeout=120)
+            # the second run: another environment, and for every third input the CLI built in the release profile
+            e2 = env_base()
+            e2.update(cli_envs[k % len(cli_envs)])
+            r2, o2 = sh([exe_rel if k % 3 == 0 else exe, inp, "--output", b], timeout=120, env=e2)
             ctx.coverage["evaluations"] += 2
             if r1 != 0 or r2 != 0:
                 ctx.inconclusive.append(f"logos-cli failed on generated input {k}: {o1[-200:]}")
             elif open(a, "rb").read() != open(b, "rb").read():
-                ctx.add_violation({"property": "C16", "level": "R", "rule": "cli-runs-differ", "detail": f"two runs of logos-cli on {inp} produced different bytes", "input": open(inp).read()})
+                ctx.add_violation({"property": "C16", "level": "R", "rule": "cli-runs-differ", "detail": f"two runs of logos-cli on {inp} produced different bytes (second run: {'release-built CLI, ' if k % 3 == 0 else ''}hostile environment #{k % len(cli_envs)})", "input": open(inp).read()})
             else:
-                r3, o3 = sh([exe, inp, "--output", b, "--check"], timeout=120)
+                r3, o3 = sh([exe, inp, "--output", b, "--check"], timeout=120, env=e2)
                 if r3 != 0:
                     ctx.add_violation({"property": "C16", "level": "R", "rule": "cli-check-rejects-own-output", "detail": o3[-300:], "input": open(inp).read()})
             k += 1
@@ -1405,6 +1463,12 @@ CHECKS = {
 def do_setup():
     """Build everything the quick checks need (default seed) so that they start warm."""
     build_harness()
+    # C16 compares the generator built in the debug and in the release profile, for both code generators
+    with ThreadPoolExecutor(max_workers=2) as ex:
+        list(ex.map(lambda sm: (build_harness(sm), build_harness(sm, release=True)), (False, True)))
+    for sm in (False, True):
+        build_cli(sm)
+        build_cli(sm, release=True)
     ctx = Ctx("setup", "quick", int(os.environ.get("VERIF_SEED", "1")))
     ensure_corpus(ctx, "mixed", list(CONFIGS))
     print("setup done")
